@@ -630,7 +630,11 @@ def handle_rejections(ctx, p, mode, rejected, race, seen_classes=None):
     pins beyond the statement (e.g. the moment a re-subscription takes effect) are drift."""
     if not rejected:
         return
-    classified = [(scn, evs, idx) + classify(p, mode, evs, idx) for scn, evs, idx in rejected]
+    def cl(evs, idx):
+        c = classify(p, mode, evs, idx)
+        # the first event TLC cannot explain may precede the event that contradicts the statement
+        return c if c[0] else (classify(p, mode, evs, len(evs) - 1) if classify(p, mode, evs, len(evs) - 1)[0] else c)
+    classified = [(scn, evs, idx) + cl(evs, idx) for scn, evs, idx in rejected]
     clear = [c for c in classified if c[3]]
     if not clear:
         scn, evs, idx, _, text = classified[0]
